@@ -116,6 +116,18 @@ static void run_ini(int maxl, long shard, long nshards) {
     }
     vc_sample("INI lines [%s | %s | %s | %s] x 8 layouts x separators '=' ':'", KINDNAME[SEC_S], KINDNAME[KV_X1], KINDNAME[SEC_NONE], KINDNAME[REF_SX]);
 }
+/* reference-heavy documents one line longer than the full enumeration: only the section switch and the lines that hold references
+ * (forward references reached on several paths need five lines) */
+static void run_iniref(int n) {
+    const int RK[] = {SEC_S, SEC_NONE, KV_X1, REF_X, REF_YZ, REF_SX, REF_SY, REF_UNDEF}; const int NR = 8; int kinds[8];
+    long tot = 1; for (int i = 0; i < n; i++) tot *= NR;
+    for (long x = 0; x < tot; x++) {
+        long y = x; for (int i = 0; i < n; i++) { kinds[i] = RK[y % NR]; y /= NR; }
+        ini_case(kinds, n, 0, '=');
+        if ((x & 0xfff) == 0 && vc_deadline_hit()) return;
+    }
+    vc_sample("INI documents of %d lines over [%s | %s | %s | %s | %s | %s | ...]", n, KINDNAME[SEC_S], KINDNAME[REF_X], KINDNAME[REF_YZ], KINDNAME[REF_SX], KINDNAME[REF_SY], KINDNAME[REF_UNDEF]);
+}
 /* @INCLUDE through qconfig_parse_file: pre-lines, directive, post-lines; include file = lines */
 static char tmpdir[512];
 static void inifile_case(const int *pre, int npre, const int *inc, int ninc, const int *post, int npost, int abs_) {
@@ -638,6 +650,7 @@ static int worker(int argc, char **argv) {
     if (!strcmp(m, "ini")) run_ini(atoi(argv[2]), atol(argv[3]), atol(argv[4]));
     else if (!strcmp(m, "inifile")) run_inifile(atol(argv[2]), atol(argv[3]));
     else if (!strcmp(m, "inilong")) run_inilong();
+    else if (!strcmp(m, "iniref")) run_iniref(atoi(argv[2]));
     else if (!strcmp(m, "inimulti")) run_inimulti(atoi(argv[2]));
     else if (!strcmp(m, "actype")) run_actype(atoi(argv[2]));
     else if (!strcmp(m, "acquote")) run_acquote(atoi(argv[2]), atol(argv[3]), atol(argv[4]));
